@@ -26,6 +26,8 @@ RULES = {
              "onto the chain and then, under `tail_block_id == block.id` and only under it, cur_block_idx is set to the index of the block just pushed (len - 1) and cur_block_offset "
              "to min(tail_offset, block.used); both paths do exactly the same. A path that forgets the fold re-delivers the sealed block from offset 0; one that folds under another "
              "condition skips or repeats entries across a rotation",
+    "C01.6": "no entry is skipped because the batch went on after a budget stop (= C03.4): once the parser has given up an entry for the byte budget, nothing more is pushed in that "
+             "call",
 }
 
 
@@ -387,6 +389,8 @@ def run(ctx):
     from .c03 import check_first_entry_widening
     check_first_entry_widening(ctx, facts, rid="C01.4")
     check_seal_fold(ctx, facts)
+    from .c03 import check_budget_stop_ends_batch
+    check_budget_stop_ends_batch(ctx, facts, rid="C01.6")
     ctx.assume("NOT decided: ordering and once-only delivery across blocks, the planner/budget interaction (e.g. a budget that ends inside a sealed block while the tail holds entries), rotation arithmetic")
     return {
         "explanation": "four structural clauses on MIR: must-pass-through between the per-entry counter and the push into the returned vector (with offset-addressed-only edges derived "
